@@ -72,8 +72,13 @@ def gen_leaf(rng, depth):
     if r < 0.44:
         n = rng.choice([0, 1, 5, 20, 63, 64]) if rng.random() < 0.85 \
             else rng.randint(65, 90)
-        return {'t': 'str', 'v': ''.join(rng.choice(
-            'abcXYZ_$\\{}^ 0123') for _ in range(n))}
+        v = ''.join(rng.choice('abcXYZ_$\\{}^ 0123') for _ in range(n))
+        if rng.random() < 0.1:
+            # scalar strings are stored as unicode (accented author names,
+            # a micro sign); only string LISTS are reduced to ASCII by the
+            # writer
+            v += rng.choice(['\u00b5m', 'Ren\u00e9', '\u00c5', '\u03bb'])
+        return {'t': 'str', 'v': v}
     if r < 0.62:
         nd = rng.choice([0, 1, 1, 1, 2, 2, 3])
         shape = [rng.choice([0, 1, 2, 3, 5]) if rng.random() < 0.15
@@ -361,6 +366,11 @@ def generate(run_seed, tier):
                                 'alpha': c.uniform(0.5, 2.5),
                                 'beta': 10 ** c.uniform(4, 4.7),
                                 'gamma': c.uniform(5, 25)}
+                    # coefficients that are exactly zero (legal, and not
+                    # "unset")
+                    for coef in ('alpha', 'beta', 'gamma'):
+                        if c.random() < 0.2:
+                            m['gas'][coef] = 0.0
             r = c.random()
             if r < 0.15:
                 mcfg['tp'] = {'kind': 'rodgers', 'layers': [
@@ -430,7 +440,7 @@ def generate(run_seed, tier):
             elif r < 0.7:
                 sub = ['flip']
             ops.append(['store_spectrum', o.choice(['flux', 'flux', 'simple',
-                                                    'native']),
+                                                    'native', 'lightcurve']),
                         o.choice([1, 3, 6, 1, 3, 6, -2, 0, 2, 4, 5]),
                         'Spectra%d' % len(ops), sub,
                         o.random() < 0.3])
@@ -840,8 +850,25 @@ def execute(case, keep_text=False):
                 # sizes reach the binners as enum members or as plain
                 # integers (the program itself passes output_size-3)
                 osz = OutputSize(op[2]) if op[2] in (1, 3, 6) else op[2]
+                lc_parts = None
+                if op[1] == 'lightcurve':
+                    # the result tuple of a light-curve model (pylightcurve is
+                    # absent, so the model class cannot be imported): light
+                    # curve, optical depth, and (native grid, native spectrum,
+                    # spectrum binned to the observation, extras)
+                    fb = obs.create_binner()
+                    ng_ = np.array(res[0], dtype=float)
+                    bw_, bs_ = fb.bindown(ng_, np.array(res[1]))[:2]
+                    lc_ = np.linspace(1.0, 0.99, 3 * len(bw_))
+                    lc_parts = [np.array(bw_), lc_, np.array(res[2]), ng_,
+                                np.array(res[1]), np.array(bs_)]
+                    res = (lc_parts[0], lc_, res[2],
+                           (ng_, res[1], bs_, None))
                 spec = binner.generate_spectrum_output(res, output_size=osz)
-                if r == 0:
+                if r == 0 and lc_parts is not None:
+                    spectra_written[op[3]] = ('lightcurve', op[2], lc_parts)
+                    out.bump('probes', 'lightcurve_result_stored')
+                elif r == 0:
                     spectra_written[op[3]] = (
                         op[1] + (':warped' if sub and sub[0] in ('warp', 'flip')
                                  else ''),
@@ -894,6 +921,9 @@ def execute(case, keep_text=False):
         if kind == 'simple':
             from taurex.binning import SimpleBinner
             return SimpleBinner(wngrid=np.array(obs.wavenumberGrid))
+        if kind == 'lightcurve':
+            from taurex.binning.lightcurvebinner import LightcurveBinner
+            return LightcurveBinner()
         from taurex.binning import NativeBinner
         return NativeBinner()
 
@@ -1030,7 +1060,36 @@ def execute(case, keep_text=False):
     return out
 
 
+def check_lightcurve_group(viol, out, g, size, parts):
+    bw, lc, tau, ng, native, binned = parts
+    keys = set(g.keys())
+
+    def arr(k):
+        return np.asarray(g[k][()], dtype=float)
+    for k, want in (('native_wngrid', ng), ('native_spectrum', native),
+                    ('binned_wngrid', bw), ('binned_spectrum', binned),
+                    ('lightcurve', lc), ('native_wlgrid', 10000.0 / ng),
+                    ('binned_wlgrid', 10000.0 / bw)):
+        if k not in keys:
+            viol('spectrum', 'missing:' + k, 'light-curve binner')
+            return
+        a = arr(k)
+        if a.shape != np.shape(want) or not np.allclose(a, want, rtol=1e-13,
+                                                        atol=0):
+            viol('spectrum', 'lightcurve:' + k, 'stored %s is not what the '
+                 'light-curve result holds' % k)
+    for k, present in (('binned_tau', size > 1), ('native_tau', size > 3)):
+        if (k in keys) != present:
+            viol('spectrum', 'tau-presence:' + k, 'output size %d, '
+                 'light-curve binner: %s present=%s' % (size, k, k in keys))
+        elif present and not np.array_equal(arr(k), tau):
+            viol('spectrum', 'lightcurve:' + k, 'differs from the result')
+    out.bump('steps', 'spectra_checked')
+
+
 def check_spectrum_group(viol, out, g, bkind, size, res, cfg):
+    if bkind == 'lightcurve':
+        return check_lightcurve_group(viol, out, g, size, res)
     native_wn, native_y, native_tau = res
     warped = bkind.endswith(':warped')
     bkind = bkind.split(':')[0]
